@@ -69,6 +69,12 @@ CHECKS = {
             "the awkward corners (negative/zero/odd UTC offsets, years < 1000, microsecond and negative durations, -0.0, 1e+-300, 2**53+-1, 15-digit Decimals, "
             "millisecond times, empty containers); encode, require standard JSON, parse back, compare.",
             "Trusted: Python json (reader with parse_constant refusing NaN/Infinity), vf/oracle.py:equal.", "3/C14"),
+    "C18": ("property-based testing (Hypothesis) plus an exhaustive grid: recursive declarations x link positions x chain depth x max_depth against the exact depth biconditional; deterministic work counter (registered leaf converter) against a polynomial bound",
+            "hypothesis",
+            "Exploration: 8 recursion shapes (direct, Optional, List, Dict, Tuple, Union either way, mutual) x every link position (list index 0/1/2, key ''/'k'/'0') x D in 1..6 x "
+            "max_depth in {None,1..4}, cyclic inputs, and cost families scaled in depth/breadth with a valid or an invalid bottom leaf are enumerated completely on every run; "
+            "Hypothesis adds random per-level positions, siblings, bases. Work is counted by a converter registered through the public API, never by a clock.",
+            "Trusted: the nesting-depth definition taken from the documentation example; the bound 8*L**2 as the meaning of 'polynomial' on the generated families.", "3/C18"),
     "C16": ("model-based stateful PBT (Hypothesis RuleBasedStateMachine) of register/use histories against a cache-free reference model",
             "hypothesis",
             "Exploration: random histories of registrations and conversions over a 6-class hierarchy on three registries "
